@@ -25,7 +25,7 @@ SPEC_NAMES = {"forall", "exists", "implies", "old", "has", "get", "result", "iff
               "card", "is_some", "the", "select", "store", "subset", "inrange", "cls_is", "same_obj", "let",
               "dom_eq", "unchanged", "nth", "Seq", "contains", "distinct", "sub", "count_in", "spec_call", "pre",
               "image_has", "inj", "keys_of", "ghost", "concat", "empty_seq", "isNone", "notNone", "eq", "view_of",
-              "kind_of", "elems", "as_list", "as_cls"}
+              "kind_of", "elems", "as_list", "as_cls", "any_as"}
 
 
 class Evaluator(Interp):
@@ -640,7 +640,17 @@ class Evaluator(Interp):
                 raise Unsupported("dict unpacking")
             items.append((self.eval(k, fr), self.eval(v, fr)))
         kty = self.val_ty(items[0][0])
-        vty = self.val_ty(items[0][1])
+        vtys = []
+        for _, v in items:
+            try:
+                t = self.val_ty(v)
+            except Unsupported:
+                t = None
+            vtys.append(t)
+        vty = vtys[0] if all(t is not None and t == vtys[0] for t in vtys) else TAny
+        if vty is TAny:
+            # injections must be at the value's own (static) type so that any_as() can invert them
+            items = [(k, SV(TAny, self.to_any(self.coerce(v, self.val_ty(v)) if not isinstance(v, SV) else v))) for k, v in items]
         d = self.empty_dict(TDict(kty, vty))
         for k, v in items:
             d = self.dict_store(d, k, v)
